@@ -29,6 +29,10 @@ def main(prop: str, tier: str) -> int:
         except ImportError:
             pass
     if prop == 'C06':
+        from checks import c09
+        cp = c09.cost_part(rep, tier, kinds={'reparse'})
+        cp.pop('design_deviations_of_transcribed_algorithm', None)
+        add_part(rep, 'cost_setters', cp)
         try:
             from checks import numexpr
             add_part(rep, 'arithmetic', numexpr.run(rep, tier, {'reparse'}))
